@@ -83,12 +83,22 @@ func (b *payPerInterval) OnUpdate(node store.Node, peers []store.Node) (store.Ba
 	}
 
 	total := new(big.Int)
+	credited := make([]store.NodeID, 0, len(peers))
 	for _, peer := range peers {
-		b.Store.AddNodeBalance(peer.ID, credit)
+		if err := b.Store.AddNodeBalance(peer.ID, credit); err != nil {
+			// A peer that could not be credited is not charged for.
+			continue
+		}
+		credited = append(credited, peer.ID)
 		total.Add(total, credit)
 	}
 
 	if err := b.Store.AddNodeBalance(node.ID, new(big.Int).Neg(total)); err != nil {
+		// The client could not be charged, so take back what was credited.
+		refund := new(big.Int).Neg(credit)
+		for _, peerID := range credited {
+			b.Store.AddNodeBalance(peerID, refund)
+		}
 		return store.Balance{}, err
 	}
 	balance, err := b.Store.GetNodeBalance(node.ID)
